@@ -924,6 +924,10 @@ def oracle(ctx, volume=1):
             s1 = s0 + 12345
             perturb(5, 1); t.reset_seed(s1); d = canon(e.run(None)); held = t._experiment.seed_data
             np.random.random(3); t.reset_seed(); d2 = canon(e.run(None))
+            # the seed 0 is a seed like any other (not "no seed"): on an object holding a non-zero seed, then on one holding 0
+            perturb(6, 2); t.reset_seed(0); z1 = canon(e.run(None)); held0 = t._experiment.seed_data
+            np.random.random(5); t.reset_seed(0); z2 = canon(e.run(None))
+            np.random.random(5); t.reset_seed(); z3 = canon(e.run(None))
             t.reset_seed(s0)            # restore
         except Exception as ex:  # noqa
             ctx.violate(f"{site}/raises", f"{type(ex).__name__}: {ex}", rep); continue
@@ -938,6 +942,12 @@ def oracle(ctx, volume=1):
             ctx.violate(f"{site}/new-seed", f"reset_seed({s1}) does not re-seed with the new seed (seed_data now {held})", rep)
         elif d2 != want(s1)[0]:
             ctx.violate(f"{site}/no-arg/after-new-seed", "reset_seed() does not replay the seed set by the previous reset_seed(seed)", rep)
+        wz = want(0)[0]
+        if z1 != wz or held0 != 0:
+            ctx.violate(f"{site}/seed-0-ignored", f"reset_seed(0) on an object holding seed {s1} does not re-seed with 0 (seed_data now {held0}; "
+                                                  f"data are{'' if z1 == want(s1)[0] else ' not'} the stream of the old seed)", rep)
+        elif z2 != wz or z3 != wz:
+            ctx.violate(f"{site}/seed-0-held", "on an object holding seed 0, reset_seed(0) / reset_seed() does not rewind to np.random.seed(0)", rep)
     # to_stream itself
     gen = MT(3)
     if to_stream(None) is not np.random or to_stream(gen) is not gen or not isinstance(to_stream(3), np.random.Generator) \
